@@ -1,11 +1,13 @@
 // C12: SIMD evaluation vs default (scalar) evaluation of the same call on the same operands.
 //
-// request: {"op":"simd","ctx":C,"f":F,"form":"unary"|"binary"|"reduce"|"outer"|"matmul","dt":"f32"|"f64",
+// request: {"op":"simd","ctx":C,"f":F,"form":"unary"|"binary"|"reduce"|"outer"|"matmul","dt":"f32"|"f64"|"i32"|"i64",
 //           "a":{"shape":[..],"data":[..],"layout":"row"|"col"}, "b":{...}, "p":[params of the activation],
 //           "axis":null|int|[..], "keepdims":null|true|false|"ct_true"|"ct_false", "initial":null|num}
 // "data" is in logical (row-major enumeration) order whatever the storage layout of the operand is.
 // answer:  {"simd":{observe_fields}, "scalar":{observe_fields}}  |  {"unsupported": why}
 //
+// keepdims null = the default argument (False); integers: binary/reduce/outer/matmul only, row-major operands only.
+// Servers: "simd" = all 49 parts; "simd_<ctx>" = dispatcher + the 8 parts of one context (nmv/servers.d/simd_*.json).
 // NMV_PART 0 is the dispatcher ("simd" -> "simd:<ctx>:<group>"); part 1 + ctx*C12_NSUB + sub holds one (context, op group).
 #include "nmv.hpp"
 
